@@ -110,6 +110,11 @@ import BGV
 #print axioms BGV.C11_findVertexPredecessors
 #print axioms BGV.C11_entry
 
+-- C12
+#print axioms BGV.C12_dijkstra_correct
+#print axioms BGV.C12_distance_is_minimum
+#print axioms BGV.C12_entry
+
 -- C14
 #print axioms BGV.C14_layout
 #print axioms BGV.C14_roundtrip_records
@@ -118,6 +123,12 @@ import BGV
 #print axioms BGV.C15_truncated_records
 #print axioms BGV.C15_loadText_total
 #print axioms BGV.C15_loadBin_total
+
+-- C16
+#print axioms BGV.C16_forced_add
+#print axioms BGV.C16_removeEdge_all_copies
+#print axioms BGV.C16_removeDuplicateEdges
+#print axioms BGV.C16_dedup_restores_inv
 
 -- C17
 #print axioms BGV.C17_dStep_no_ub
